@@ -356,6 +356,29 @@ impl<'a> Cx<'a> {
         }
     }
 
+    fn method_exists_on(&self, owner: &str, m: &str) -> bool {
+        self.db.impls.iter().any(|im| im.self_ty.head() == Some(owner) && im.fns.iter().any(|f| f.sig.ident == m))
+    }
+
+    /// (takes `&mut self`, return type) of the inherent method `owner::m`, when it has a return type.
+    fn method_sig_on(&self, owner: &str, m: &str) -> Option<(bool, Ty)> {
+        for im in &self.db.impls {
+            if im.self_ty.head() == Some(owner) {
+                for f in &im.fns {
+                    if f.sig.ident == m {
+                        let is_mut = matches!(f.sig.inputs.first(), Some(syn::FnArg::Receiver(r)) if r.mutability.is_some());
+                        return match &f.sig.output {
+                            syn::ReturnType::Type(_, t) => Some((is_mut, convert_type(t))),
+                            syn::ReturnType::Default => None,
+                        };
+                    }
+                }
+            }
+        }
+        None
+    }
+
+    #[allow(dead_code)]
     fn mut_self_method_ret(&self, m: &str) -> Option<Ty> {
         let st = self.self_ty.clone()?;
         for im in &self.db.impls {
@@ -821,7 +844,12 @@ impl<'a> Cx<'a> {
                 // `let PAT = match S { P => E, _ => { …; return … } };`: the arms that do not leave the function bind PAT and go on
                 if let Expr::Match(mm) = &init {
                     let scrut = self.expr(&mm.expr, None)?;
-                    if matches!(scrut.ty, LT::Value | LT::Tup(_)) && mm.arms.iter().all(|a| a.guard.is_none()) {
+                    let general = match &scrut.ty {
+                        LT::Value | LT::Tup(_) | LT::Res(..) => true,
+                        LT::Opt(t) => matches!(**t, LT::Tup(_)),
+                        _ => false,
+                    };
+                    if general && mm.arms.iter().all(|a| a.guard.is_none()) {
                         let snapshot = self.snapshot();
                         let mut arms = String::new();
                         for a in &mm.arms {
@@ -1259,6 +1287,12 @@ impl<'a> Cx<'a> {
             (Pat::TupleStruct(ts), LT::Opt(t)) if toks(&ts.path) == "Some" && ts.elems.len() == 1 => {
                 Ok(format!("(some {})", self.pattern(&ts.elems[0], t)?))
             }
+            (Pat::TupleStruct(ts), LT::Res(t, _)) if toks(&ts.path) == "Ok" && ts.elems.len() == 1 => {
+                Ok(format!("(Except.ok {})", self.pattern(&ts.elems[0], t)?))
+            }
+            (Pat::TupleStruct(ts), LT::Res(_, e)) if toks(&ts.path) == "Err" && ts.elems.len() == 1 => {
+                Ok(format!("(Except.error {})", self.pattern(&ts.elems[0], e)?))
+            }
             (Pat::TupleStruct(ts), LT::Value) if ts.elems.len() == 1 => {
                 let name = toks(&ts.path).replace(' ', "");
                 match name.as_str() {
@@ -1283,7 +1317,12 @@ impl<'a> Cx<'a> {
         let scrut = self.expr(&m.expr, None)?;
         let snapshot = self.snapshot();
         // (0) match over Value / tuples of modelled values, with the general pattern compiler
-        if matches!(scrut.ty, LT::Value | LT::Tup(_)) && m.arms.iter().all(|a| a.guard.is_none()) {
+        let general = match &scrut.ty {
+            LT::Value | LT::Tup(_) | LT::Res(..) => true,
+            LT::Opt(t) => matches!(**t, LT::Tup(_)),
+            _ => false,
+        };
+        if general && m.arms.iter().all(|a| a.guard.is_none()) {
             let mut arms = String::new();
             for a in &m.arms {
                 self.restore(&snapshot);
@@ -1292,6 +1331,13 @@ impl<'a> Cx<'a> {
                 let pat = self.pattern(&a.pat, &sty)?;
                 let mut v = match &*a.body {
                     Expr::Block(b) => b.block.stmts.clone(),
+                    // `Err(e) => self.report(e),` where the method answers nothing: a statement
+                    Expr::MethodCall(mc)
+                        if self.path_of(&mc.receiver).as_deref() == Some("self")
+                            && self.self_ty.clone().map(|o| self.method_exists_on(&o, &mc.method.to_string()) && self.method_sig_on(&o, &mc.method.to_string()).is_none()).unwrap_or(false) =>
+                    {
+                        vec![Stmt::Expr((*a.body).clone(), Some(Default::default()))]
+                    }
                     other => vec![Stmt::Expr(other.clone(), None)],
                 };
                 if !rest.is_empty() {
